@@ -82,6 +82,32 @@ pub fn alphabet(variant: usize) -> Vec<Call> {
     a
 }
 
+/// every typed load kind and the raw resolve on every object of the document, plus the page look-ups: loaders of one object
+/// read other objects through the same caches, so a wrongly typed load of any object may matter to any later call
+pub fn alphabet_wide(variant: usize) -> Vec<Call> {
+    use Kind::*;
+    let mut a: Vec<Call> = vec![];
+    let mut objs: Vec<u64> = (1..=38).collect();
+    objs.push(50);
+    if variant == 1 {
+        objs.push(40);
+    }
+    for &n in &objs {
+        for k in [Resolve, GetPagesNode, GetFont, GetXObject, GetStream] {
+            a.push((k, n));
+        }
+    }
+    for n in [0u64, 1, 2] {
+        a.push((GetPage, n));
+    }
+    for c in alphabet(variant) {
+        if !a.contains(&c) {
+            a.push(c);
+        }
+    }
+    a
+}
+
 fn hb(b: &[u8]) -> String {
     format!("{}B#{:016x}", b.len(), fnv(b))
 }
@@ -225,6 +251,7 @@ fn check_seq(bytes: &[u8], reference: &std::collections::HashMap<Call, String>, 
 pub fn run(tier: Tier, _seed: u64, tally: &mut Tally) -> CheckMeta {
     let maxlen = 3;
     let mut total_alpha = 0;
+    let mut total_wide = 0;
     for variant in 0..2 {
         let bytes = c12_doc(variant);
         let alpha = alphabet(variant);
@@ -253,6 +280,32 @@ pub fn run(tier: Tier, _seed: u64, tally: &mut Tally) -> CheckMeta {
             .collect();
         for p in parts {
             tally.merge(p);
+        }
+        // wide alphabet: every typed load and resolve of every object, all ordered pairs, all configurations
+        {
+            let wide = alphabet_wide(variant);
+            total_wide = total_wide.max(wide.len());
+            let wref: std::collections::HashMap<Call, String> = wide.par_iter().map(|c| (*c, run_sequence(&bytes, 4, &[*c]).pop().unwrap())).collect();
+            let m = wide.len();
+            let parts: Vec<Tally> = (0..m)
+                .into_par_iter()
+                .map(|i| {
+                    let mut t = Tally::new();
+                    for cfg in 0..CONFIGS.len() {
+                        for j in 0..m {
+                            // pairs inside the narrow alphabet were done above
+                            if alpha.contains(&wide[i]) && alpha.contains(&wide[j]) {
+                                continue;
+                            }
+                            check_seq(&bytes, &wref, variant, cfg, &[wide[i], wide[j]], &mut t);
+                        }
+                    }
+                    t
+                })
+                .collect();
+            for p in parts {
+                tally.merge(p);
+            }
         }
         // all orderings of the distinct call kinds per object (permutations of up to 6 calls on one object)
         let mut by_obj: std::collections::BTreeMap<u64, Vec<Call>> = Default::default();
@@ -310,7 +363,7 @@ pub fn run(tier: Tier, _seed: u64, tally: &mut Tally) -> CheckMeta {
     CheckMeta {
         prop: "C12",
         level: "model_checking",
-        rule: format!("call alphabet of {} (kind, object) pairs on two generated documents (classic; xref stream + object stream) containing pages, fonts, a Flate image with predictor, a hex+run-length mask, an [ASCII85 Flate] image, a form and content streams: kinds resolve, get::<PagesNode|Font|XObject|Stream|ObjectStream>, Stream::data, raw_image_data, image_data, get_page (incl. type-mismatching and out-of-range calls). Exhaustive: all sequences of length <= 2 under 5 cache configurations {{SyncCache both, object only, stream only, own map-backed caches, none}}, all sequences of length 3 under {}, and every ordering (all permutations) of the distinct calls per object. Each answer is compared with the same call made alone on a fresh uncached document (canonical digest / root-cause error variant).", total_alpha, if tier.thorough() { "every configuration" } else { "both-caches and own-map-caches" }),
+        rule: format!("call alphabet of {} (kind, object) pairs on two generated documents (classic; xref stream + object stream) containing pages, fonts, a Flate image with predictor, a hex+run-length mask, an [ASCII85 Flate] image, a form and content streams: kinds resolve, get::<PagesNode|Font|XObject|Stream|ObjectStream>, Stream::data, raw_image_data, image_data, get_page (incl. type-mismatching and out-of-range calls). Exhaustive: all sequences of length <= 2 under 5 cache configurations {{SyncCache both, object only, stream only, own map-backed caches, none}}, all sequences of length 3 under {}, every ordering (all permutations) of the distinct calls per object, and all ordered pairs over a wide alphabet of {} calls (resolve and get::<PagesNode|Font|XObject|Stream> on every object of the document, page look-ups) under all 5 configurations. Each answer is compared with the same call made alone on a fresh uncached document (canonical digest / root-cause error variant).", total_alpha, if tier.thorough() { "every configuration" } else { "both-caches and own-map-caches" }, total_wide),
         assumptions: vec!["digests are independent of HashMap iteration order and file offsets".into()],
         exhaustive: true,
         bounds: json!({"sequence_len": maxlen}),
@@ -321,7 +374,7 @@ pub fn replay(case: &Value, tally: &mut Tally) {
     let variant = case["variant"].as_u64().unwrap_or(0) as usize;
     let cfg = case["config"].as_u64().unwrap_or(0) as usize;
     let bytes = c12_doc(variant);
-    let alpha = alphabet(variant);
+    let alpha = alphabet_wide(variant);
     let seq: Vec<Call> = case["calls"].as_array().unwrap().iter().map(|c| *alpha.iter().find(|(k, o)| format!("{:?}", k) == c[0].as_str().unwrap() && *o == c[1].as_u64().unwrap()).expect("call in alphabet")).collect();
     let reference: std::collections::HashMap<Call, String> = alpha.iter().map(|c| (*c, run_sequence(&bytes, 4, &[*c]).pop().unwrap())).collect();
     println!("config {} calls {:?}", CONFIGS[cfg], seq.iter().map(call_name).collect::<Vec<_>>());
